@@ -23,7 +23,12 @@ ASSUMPTIONS = ['whisper and ceres are absent: stand-in modules record file-syste
 CLASSICS = ['../x', '/abs', '/etc/passwd', 'a/../../b', '..;a=b', ';a=../..', '....//....//x', '/../../x', '//x', '/.x',
             './x', 'a/./b', '~/x', '~root', '_tagged/../../x', '_tagged.aaa.bbb.x', 'a;b=/../../..', 'a;b=/abs',
             '/;a=b', '../..;a=b', 'a.b./../..', '.', '..', '...', '/', '//', 'a/', '/a', 'a//b', 'a/..', '\\..\\x',
-            'a;b=c/../../../../../../x', '..a', 'a..', '.a', 'a.', ';', ';=', '=;', 'a;', 'a;b', 'a;=b', 'a;b=']
+            'a;b=c/../../../../../../x', '..a', 'a..', '.a', 'a.', ';', ';=', '=;', 'a;', 'a;b', 'a;=b', 'a;b=',
+            # unicode look-alikes of '.', '..' and '/' (compatibility forms), composed vs decomposed letters
+            'x.\u2025.\u2025.\u2025.outside', '\u2025/\u2025/x', '\uff0fabs', '\uff0f\uff0fx', 'a\uff0f..\uff0f..\uff0fb', '\u2024\u2024/x',
+            'a.\uff0e\uff0e.b', '\ufe52\ufe52/x', 'x;t=\u2025/\u2025/\u2025/y', 'x;t=\uff0fabs', '\u2215abs', '\u2044abs', '\u29f8abs',
+            'app.\uff42.count', 'app.b.count', 'caf\u00e9.x', 'cafe\u0301.x', '\uff21.b', 'A.b', '\u2460.x', '1.x', '\ufb01.x', 'fi.x']
+UNI_ALPHA = ['.', '/', 'a', ';', '\u2025', '\u2024', '\uff0f', '\uff0e']
 
 
 def configs(tier, seed):
@@ -67,7 +72,18 @@ def run_config(cfg, res):
         yield c
       for _ in range(3000 if cfg['tier'] == 'quick' else 40000):
         n = r.randint(5, 40)
-        yield ''.join(r.choice(ALPHA + ['b', 'c', '..', '/../', '中', '_tagged', ';x=']) for _ in range(n))
+        yield ''.join(r.choice(ALPHA + ['b', 'c', '..', '/../', '中', '_tagged', ';x=', '\u2025', '\uff0f', '\uff0e', '\u2024']) for _ in range(n))
+    # second exhaustive family: unicode compatibility look-alikes of the path characters (length <= 4)
+    if first in UNI_ALPHA or first == ALPHA[1]:
+      f2 = UNI_ALPHA[ALPHA.index(first) % len(UNI_ALPHA)] if first not in UNI_ALPHA else first
+      for L in range(0, 4):
+        for rest in itertools.product(UNI_ALPHA, repeat=L):
+          yield f2 + ''.join(rest)
+      for f3 in UNI_ALPHA[4:]:
+        if ALPHA.index(first) == UNI_ALPHA.index(f3) % len(ALPHA):
+          for L in range(0, 4):
+            for rest in itertools.product(UNI_ALPHA, repeat=L):
+              yield f3 + ''.join(rest)
     yield first
     for L in range(1, cfg['L']):
       for rest in itertools.product(ALPHA, repeat=L):
